@@ -3,11 +3,13 @@ import refs_cases
 
 ID = "C05"
 PROPERTIES_FILE = "Properties/C05.v"
-COQ_TARGETS = ["Properties/C05.vo", "Refs/Cases.vo", "Refs/RefProofs.vo", "Refs/RefStep.vo", "Refs/LifeProofs.vo", "Refs/LifeStep.vo", "Refs/ErrPaths.vo", "Refs/Disconnect.vo", "Refs/Ordered.vo", "Refs/Ranked.vo", "Refs/RankedFs.vo", "Refs/FenceProofs.vo"]
+COQ_TARGETS = ["Properties/C05.vo", "Refs/Cases.vo", "Refs/RefProofs.vo", "Refs/RefStep.vo", "Refs/LifeProofs.vo", "Refs/LifeStep.vo", "Refs/ErrPaths.vo", "Refs/Disconnect.vo", "Refs/Ordered.vo", "Refs/Ranked.vo", "Refs/RankedFs.vo", "Refs/FenceProofs.vo", "Refs/GenTie.vo"]
 LEVEL = "proof"
 TECHNIQUE = ("Coq theorems (all backends, all states) over a hand-written sequential Gallina model of fidRef reference counting, the DecRef "
              "cascade, the fid tables and connState.stop; model tied to the code by a differential against the real Server.Handle driven "
-             "over net.Pipe with a counting, failure-injecting, path-addressed backend; lifecycle predicate evaluated on the observed call log")
+             "over net.Pipe with a counting, failure-injecting, path-addressed backend; lifecycle predicate evaluated on the observed call log; "
+             "static tie: go2coq/RefsGen extracts the event skeletons (calls, order, path conditions incl. early returns, closure/defer/loop "
+             "context) of DecRef, notifyDelete, markChildDeleted, notifyNameChange, renameChildTo, stop and doWalk and Coq checks them equal to a table reviewed against the model")
 LEVEL_TEXT = ("Proved in Coq by induction over ALL request histories from the initial state, for EVERY backend (every success/failure choice "
               "of every backend call): C05_inv (refs = #fid-table entries + #transient holders + #live children + #live xattr borrowers; the DecRef "
               "cascade never runs out of fuel - no acyclicity needed), File ownership (every returned handle owned by exactly one fidRef, xattr fidRefs "
@@ -34,7 +36,11 @@ LEVEL_NOTE = ("What is what. PROVED for the model (history theorems, every backe
               "backends other than PathFS (hypothesis [rsafe]: relating a backend's notion of 'below' to the server's tree is path coherence, "
               "proved for PathFS only), the Tattach branch !valid.Mode (same exit as a GetAttr error). The harness reads unexported fields "
               "(pathNode.childRefs/childRefNames/childNodes/deleted, fidRef.file, server.pathTree): renaming one breaks its compilation and is "
-              "reported as a violation. The model is tied to the Go code by the differential only.")
+              "reported as a violation. STATIC TIE (C05_code_skeleton, C05_decref_drops_parent_unconditionally, C05_clone_takes_parent_reference): "
+              "the generated event skeletons of the seven functions equal a table reviewed by hand against Refs/Model.v - an equality with a reviewed "
+              "table, not a semantics of Go; it is invariant under renaming locals, error re-wrapping, inverted guards with early return and "
+              "a && b vs nested ifs, and changes when one of the tracked calls is dropped, added, reordered or re-guarded. Everything else of the "
+              "model (the handlers' guards, fid tables, walkOne, removeWithName's loop) is tied to the Go code by the differential only.")
 DESIGN_REF = "6/C05"
 ASSUMPTIONS = [
     "requests of all connections are processed one at a time (sequential model); Go map iteration order only permutes Renamed/Close runs",
@@ -46,6 +52,7 @@ TRUSTED_BASE = [
     "axioms: none (Print Assumptions: closed under the global context for every property theorem)",
     "hand-written model Refs/Model.v + Refs/PathFS.v, tied by harness/p9/c05_test.go, vhfs_*_test.go + Refs/Cases.v",
     "the harness backend vhfs (Go twin of PathFS.v), its call log and failure injection; lib/refs_cases.py (observations -> Coq terms)",
+    "tools/go2coq/refsgen.go (syntactic event-skeleton extraction, no type checker) and the hand review of Refs/GenTie.v's table against Refs/Model.v",
 ]
 HARNESS = ["vh_common_test.go", "vhfs_backend_test.go", "vhfs_driver_test.go", "vhfs_gen_test.go", "vhfs_gated_test.go", "c05_test.go"]
 TEST = "^TestVerifC05$"
